@@ -265,6 +265,9 @@ func (x *Exec) runUnit(recvList *ast.FieldList, ftype *ast.FuncType, body *ast.B
 		}
 		// locks must be released
 		for k := range rs.held {
+			if strings.HasPrefix(k, "~rel:") {
+				continue
+			}
 			if fr.entry.held[k] == "" {
 				x.oblige(rs, fmt.Sprintf("lock-released:%s@ret%d", k, j+1), "lock", "false", nil)
 			}
